@@ -17,6 +17,7 @@ RULE = ('case = random model: 1-4 elementwise constraints (==,<=,>=) over affine
         '2-norm; repeated, shared and constant arguments) and 0-2 Primal/DualProductCone constraints over {+,0,S,e}; '
         'non-trivial = model with >=1 nonlinear atom or >=1 non-+ cone; distinct by model hash')
 TRUSTED = ['correspondence harness harness/props/c07.py (recovers id-indexed sparse rows from A via svid2col; coefficients mapped to a+b*e)',
+           'translators harness/translator/rows_tr.py, prodcone_tr.py, epi_tr.py (Gen/GenRows.v, GenProdCone.v, GenEpi.v; atom argument tuples and the reading of triplets as rows per Model/TripletIdioms.v, validated by the suite epi_generated)',
            'ids of epigraph variables and the dummy column id are observed inputs of the model (uniqueness is C20)',
            'scipy.sparse csc construction (duplicate summation, eliminate_zeros)']
 ASSUMPTIONS = ['Model/Compile.v is hand written; tied by correspondence only',
